@@ -215,6 +215,87 @@ func pickShape(rng *rand.Rand) (n, pos int) {
 	return 130, 64 + rng.Intn(64)
 }
 
+// judgeBatchRelation runs one multi-chunk batch of pure-variant triples in
+// default and in ZIP-215 mode and applies the relational part of C05 entry
+// by entry: default => ZIP-215, and the modes differ only on entries whose
+// key or R has small order.
+func judgeBatchRelation(rec *ev.Rec, pool []gen.Triple, eseed int64) bool {
+	var ts []gen.Triple
+	for _, t := range pool {
+		if t.V.Pure && len(t.Pub) == 32 {
+			ts = append(ts, t)
+		}
+	}
+	if len(ts) < 8 {
+		return false
+	}
+	if len(ts) > 136 {
+		ts = ts[:136]
+	}
+	n := len(ts)
+	keys := make([]ed25519.PublicKey, n)
+	msgs := make([][]byte, n)
+	sigs := make([][]byte, n)
+	for i, t := range ts {
+		keys[i], msgs[i], sigs[i] = t.Pub, t.Msg, t.Sig
+	}
+	c := map[string]interface{}{"op": "batch", "keys": hexList(pubBytes(keys)), "msgs": hexList(msgs), "sigs": hexList(sigs), "kinds": famList(ts),
+		"variant": variantCase(ref.Variant{Pure: true}), "zip215": false, "hash": -1, "entropy": "uniform", "eseed": eseed, "failat": -1}
+	rec.About(c)
+	var vd, vz []bool
+	var e1, e2 error
+	pn := safe(func() {
+		_, vd, e1 = ed25519.VerifyBatch(rand.New(rand.NewSource(eseed)), keys, msgs, sigs, &ed25519.Options{})
+		_, vz, e2 = ed25519.VerifyBatch(rand.New(rand.NewSource(eseed+1)), keys, msgs, sigs, &ed25519.Options{ZIP215Verify: true})
+	})
+	rec.Eval("relation-batch", fmt.Sprintf("relation-batch/chunks=%d", (n+63)/64))
+	bad := ""
+	if pn != "" || e1 != nil || e2 != nil || len(vd) != n || len(vz) != n {
+		bad = fmt.Sprintf("VerifyBatch failed: panic=%q err=%v/%v", pn, e1, e2)
+	}
+	for i := 0; i < n && bad == ""; i++ {
+		if vd[i] == vz[i] {
+			continue
+		}
+		A, okA := ref.Decode(ts[i].Pub)
+		small := okA && ref.IsSmallOrder(A)
+		if len(ts[i].Sig) == 64 {
+			if R, okR := ref.Decode(ts[i].Sig[:32]); okR && ref.IsSmallOrder(R) {
+				small = true
+			}
+		}
+		switch {
+		case vd[i] && !vz[i]:
+			bad = fmt.Sprintf("batch entry %d/%d (%s) accepted in default mode but rejected in ZIP-215 mode", i, n, ts[i].Family)
+		case !small:
+			bad = fmt.Sprintf("batch entry %d/%d (%s): modes differ although neither key nor R has small order", i, n, ts[i].Family)
+		default:
+			rec.Class("relation-batch/differ-on-small-order", 1)
+		}
+	}
+	if bad != "" {
+		rec.Violate("relation-batch", bad, "relation-batch", c)
+		return true
+	}
+	return false
+}
+
+func pubBytes(k []ed25519.PublicKey) [][]byte {
+	out := make([][]byte, len(k))
+	for i := range k {
+		out[i] = k[i]
+	}
+	return out
+}
+
+func famList(ts []gen.Triple) []string {
+	out := make([]string, len(ts))
+	for i := range ts {
+		out[i] = ts[i].Family
+	}
+	return out
+}
+
 // ---- workload streams ----
 
 // tripleStream yields the constructive families.  emph selects extra weight.
@@ -407,6 +488,7 @@ func runC05(cfg *Cfg, rec *ev.Rec) {
 	rng := s.rng
 	const sub = "zip215-predicate"
 	pick := 0
+	var relPool []gen.Triple
 	j := func(t gen.Triple) {
 		judgeVerify(rec, sub, t, true, "single", 0, 0, 0)
 		judgeRelation(rec, t)
@@ -414,6 +496,11 @@ func runC05(cfg *Cfg, rec *ev.Rec) {
 		if pick%3 == 0 {
 			n, pos := pickShape(rng)
 			judgeVerify(rec, sub, t, true, "batch", n, pos, rng.Int63())
+		}
+		relPool = append(relPool, t)
+		if len(relPool) >= 140 {
+			judgeBatchRelation(rec, relPool, rng.Int63())
+			relPool = relPool[:0]
 		}
 	}
 	// 14 x 14 product with S in {0, random < L, boundary}
